@@ -447,13 +447,36 @@ def raceReply (kind : String) (input impl : Json) : R Reply := do
          fail := if ok then "" else msg,
          nontrivial := decide (trials > 0), tags := [kind], key := kind }
 
+/-- volume case: many distinct work ids accepted inside one window, one poll whose answer is
+    longer than any plausible batch bound with the relevant events at its end.  Model side: records
+    of other work ids never disturb a record (`other_accepts_preserve`), events for unknown work ids
+    are skipped without effect wherever they stand (`unknown_events_skipped`), and there is no bound
+    anywhere in the model: all four counters are 0. -/
+def capacityReply (input impl : Json) : R Reply := do
+  let works ← natF input "works"
+  let refused ← natF impl "refused"
+  let notOffered ← natF impl "notOffered"
+  let eventMissed ← natF impl "eventMissed"
+  let notWithheld ← natF impl "notWithheld"
+  let fail :=
+    if refused > 0 then "capacity: Accept refused a work id it had never seen"
+    else if notOffered > 0 then "capacity: an accepted, unconfirmed report inside its lockout window is no longer known (record evicted while live)"
+    else if eventMissed > 0 then "capacity: a confirmed transmit event at the end of a long provider answer was not processed (batch cut off)"
+    else if notWithheld > 0 then "capacity: in-flight work passed a filter (record evicted while live)"
+    else ""
+  pure { agree := fail.isEmpty, specModel := true, specImpl := fail.isEmpty,
+         diff := if fail.isEmpty then "" else s!"capacity ({works} work ids): refused={refused} notOffered={notOffered} eventMissed={eventMissed} notWithheld={notWithheld}; model: all 0",
+         fail := fail, nontrivial := decide (works > 0), tags := ["capacity"], key := "capacity" }
+
 def isRace (input : Json) : Option String :=
   match fieldD input "kind" .null with
   | .str k => some k
   | _ => none
 
 def handle (input impl : Json) : R Reply := do
-  if let some k := isRace input then return ← raceReply k input impl
+  if let some k := isRace input then
+    if k == "capacity" then return ← capacityReply input impl
+    return ← raceReply k input impl
   let e ← replay false input impl
   pure { agree := e.agree, specModel := e.specM, specImpl := e.specI, diff := e.diff, fail := e.fail,
          nontrivial := decide (e.nAcceptOk ≥ 1 ∧ e.nQueries ≥ 1 ∧ e.nProcessed ≥ 1),
